@@ -48,7 +48,38 @@ def main():
     print()
     for r in rows:
         print('| %s | %s | %s | %s |' % r)
+    write_results()
     return 0
+
+
+def write_results():
+    """seeded/RESULTS.md: one line per kept change, from the results recorded in each meta.json"""
+    out = ['# Seeded changes and which registered check reports them', '',
+           'Each change was written by a sub-agent that saw only the property text and a scratch worktree; it compiles, the repository\'s',
+           'own suite passes with it, and its demonstration (README.md / demo.cpp next to the patch) fails on the patched tree only.',
+           '`python3 tools_seeded.py [--tier quick|thorough] [id...]` re-runs the checks (applies the patch to /repo, runs, reverts).', '',
+           '| id | property | files | quick tier | thorough tier | first reporting oracle line |', '|---|---|---|---|---|---|']
+    for d in sorted(glob.glob(V + '/seeded/*/')):
+        try:
+            m = json.load(open(d + 'meta.json'))
+        except Exception:
+            continue
+        cells = []
+        line = ''
+        for tier in ('quick', 'thorough'):
+            r = m.get('results', {}).get(tier)
+            if not r:
+                cells.append('not run'); continue
+            det = [c for c in r if r[c]['exit'] == 1]
+            cells.append(('reported by ' + ','.join(det)) if det else 'MISSED (exit %s)' % ','.join(str(r[c]['exit']) for c in r))
+            if det and not line:
+                ls = [l.strip() for c in det for l in r[c]['lines'] if not l.startswith('VIOLATION')]
+                line = ls[0][:200] if ls else ''
+        out.append('| %s | %s | %s | %s | %s | %s |' % (m['id'], m['property'], ' '.join(os.path.basename(f) for f in m.get('files_changed', [])), cells[0], cells[1], line.replace('|', '/')))
+    notes = V + '/seeded/NOTES.md'
+    if os.path.exists(notes):
+        out += ['', open(notes).read()]
+    open(V + '/seeded/RESULTS.md', 'w').write('\n'.join(out) + '\n')
 
 
 sys.exit(main())
